@@ -168,7 +168,8 @@ ReachIn(g, x) ==
                \cup {m \in Obj : \E a \in Detached(g, x) : g.valS[a][m] > 0}
       edge  == [a \in Obj |-> IF a \in L THEN {m \in Obj : g.valS[a][m] > 0} ELSE {}]
       F[k \in 0..NObj] == IF k = 0 THEN roots
-                           ELSE LET p == F[k - 1] IN p \cup UNION {edge[a] : a \in p}
+                           \* (one reference to F[k - 1] only: TLC re-evaluates a LET body per reference)
+                           ELSE UNION {{a} \cup edge[a] : a \in F[k - 1]}
   IN F[NObj]
 Reach == ReachIn(led, ob)
 
